@@ -3,3 +3,4 @@ import RactorModel.Extracted
 import RactorModel.Props.C18
 import RactorModel.Props.C10
 import RactorModel.Props.C09
+import RactorModel.Props.C08
